@@ -17,7 +17,6 @@ def ord_parts(ctx):
                  "let mut idx: usize = 0;\n    for tx in sorted_security_txs.iter() {", 'idx')
     sp.replace("find_all_non_global_affiliates(sorted_security_txs).into_iter().collect();",
                "hole_set_to_vec(find_all_non_global_affiliates(sorted_security_txs));", 'H')
-    sp.replace("if !non_global_affiliates.contains(af) {", "if !hole_contains(&non_global_affiliates, af) {", 'H')
     sp.replace("for &idx in split_indices.iter().rev() {", "for __r in split_indices.iter().rev() {\n        let idx = *__r;", 'R8')
     return dict(mods=mod('misc', misc.text()) + mod('splits', sp.text()) + 'pub use self::misc::*;\n')
 
